@@ -14,8 +14,31 @@ pub mod c13;
 pub mod c14;
 pub mod c15;
 
+use crate::gates::Gates;
+use crate::runner::Failure;
 use crate::Ctx;
 use serde_json::Value;
+
+/// properties whose tape oracle runs entirely in-process: these also get a coverage-guided
+/// libFuzzer campaign over choice tapes in the thorough tier (`fuzzrun.rs`, `fuzz/tapes`)
+pub const TAPE_FUZZABLE: &[&str] = &["C01", "C02", "C03", "C05", "C06", "C08", "C09", "C10"];
+
+pub fn fuzz_one(prop: &str, tape: &[u8], gates: &Gates) -> Result<(), Failure> {
+    let r = match prop {
+        "C01" => c01::fuzz_one(tape, gates),
+        "C02" => c02::fuzz_one(tape, gates),
+        "C03" => c03::fuzz_one(tape, gates),
+        "C05" => c05::fuzz_one(tape, gates),
+        "C06" => c06::fuzz_one(tape, gates),
+        "C08" => c08::fuzz_one(tape, gates),
+        "C09" => c09::fuzz_one(tape, gates),
+        "C10" => c10::fuzz_one(tape, gates),
+        _ => Ok(()),
+    };
+    gates.take_hits();
+    gates.take_wanted();
+    r
+}
 
 pub fn run(id: &str, ctx: &Ctx) -> i32 {
     match id {
